@@ -64,10 +64,6 @@ func (core *JApiCore) processPasteDirective(paste *directive.Directive) *jerr.JA
 		return paste.KeywordError(jerr.MacroNotFound)
 	}
 
-	if je := core.collectRulesFromDirectives(macro.Children); je != nil {
-		return je
-	}
-
 	// macro.Children != nil - checked above
 	return core.processPasteDirectiveList(macro.Children)
 }
